@@ -806,6 +806,7 @@ func ruleOptScope(c *Ctx) {
 			l.add("R-OPTSCOPE", "v5", key, b.rel(impl.Pos()), Discharged, "no error return is the immediate outcome of a length comparison: each range test leads to the option test first", true)
 		}
 	}
+	b.removeRefusals(l, field)
 	// an index token too large for an int is an index outside the array, not a malformed token:
 	// the array's remove method tells strconv.ErrRange apart on the parse-error edge and lets the
 	// option forgive it
